@@ -225,6 +225,116 @@ def describe(case, obs):
     return tags
 
 
+# ------------------------------------------------------------------ undeclared-but-required extra fields
+HDR_READERS = {
+    **READERS,
+    "hr": dict(kw=("H1", "V0", "R1"), names={"H": ["beta"], "V": [], "R": ["beta"]}),
+    "r1": dict(kw=("H0", "V0", "R1"), names={"H": [], "V": [], "R": ["beta"]}),
+    "hv": dict(kw=("H1", "V1", "R0"), names={"H": ["beta"], "V": ["score"], "R": []}),
+}
+NAME_POOL = ["anc", "beta", "cnt", "score", "note"]
+
+
+def gen_header(rng, tier):
+    n = 150 if tier == "quick" else 6000
+    for _ in range(n):
+        reader = rng.choice(list(HDR_READERS))
+        lines = []
+        mode = rng.choice(["complete", "drop-one", "random", "random", "other-type-only"])
+        req = HDR_READERS[reader]["names"]
+        for t in "HVR":
+            for nm in NAME_POOL:
+                if mode == "complete":
+                    decl = nm in req[t] or rng.random() < 0.15
+                elif mode == "other-type-only":
+                    # a required name is declared, but only for line types whose class does not require it
+                    decl = nm not in req[t] and any(nm in req[u] for u in "HVR") or (nm in req[t] and rng.random() < 0.3)
+                else:
+                    decl = rng.random() < (0.8 if nm in req[t] else 0.2)
+                if decl:
+                    lines.append([f"#{t}", nm, rng.choice(["s", "d", ".2f"]), rng.choice(["description", "a b", ""])])
+        if mode == "drop-one":
+            have = [l for l in lines if l[1] in req[l[0][1]]]
+            want = [(t, nm) for t in "HVR" for nm in req[t]]
+            lines = [l for l in lines if l[1] not in req[l[0][1]]]
+            if want:
+                drop = rng.choice(want)
+                lines += [[f"#{t}", nm, ".2f", "d"] for t, nm in want if (t, nm) != drop]
+        # lines that only look like declarations, metadata, order lines, comments
+        for extra in [["#H", "beta"], ["#R", "beta", ".2f"], ["#Hbeta", ".2f", "x"], ["#", "orderH", "beta"], ["#", "orderR", "beta"], ["#", "version", "0.2.0"], ["# R\tbeta"], ["#X", "beta", ".2f", "x"], ["#"], ["#R beta .2f x"]]:
+            if rng.random() < 0.25:
+                lines.append(extra)
+        rng.shuffle(lines)
+        if rng.random() < 0.2:
+            lines = lines + [list(rng.choice(lines))] if lines else lines  # a declaration given twice
+        yield {"reader": reader, "lines": lines}
+
+
+def _reported_pairs(msgs):
+    import re
+
+    out = set()
+    for m in msgs:
+        if "don't seem to be declared" in m:
+            out |= {(a, b) for a, b in re.findall(r"#([HVR]) ([A-Za-z_]+)", m.split("declared in the header:")[1])}
+    return sorted(map(list, out))
+
+
+def impl_header(case):
+    from haptools.data import Haplotypes
+
+    K = classes()
+    rd = HDR_READERS[case["reader"]]
+    raw = ["\t".join(l) for l in case["lines"]]
+    with C.capture_logs() as cap:
+        h = Haplotypes(_dir / "hdr.hap", haplotype=K[rd["kw"][0]], variant=K[rd["kw"][1]], repeat=K[rd["kw"][2]], log=cap.logger)
+        h.check_header(list(raw), softly=True)
+    soft = [m for l, m in cap.records if l == "WARNING"]
+    try:
+        h.check_header(list(raw), softly=False)
+        hard = None
+    except ValueError as e:
+        hard = str(e)
+    # the same header through read(): the header is examined when the first body line arrives, so the body holds one
+    # line (of a line type the reader skips with a warning, so that no extra-field binding is involved)
+    open(_dir / "hdr.hap", "w").write("".join(r + "\n" for r in raw) + "Z\tnot-a-record\n")
+    with C.capture_logs() as cap2:
+        h2 = Haplotypes(_dir / "hdr.hap", haplotype=K[rd["kw"][0]], variant=K[rd["kw"][1]], repeat=K[rd["kw"][2]], log=cap2.logger)
+        h2.read()
+    onread = [m for l, m in cap2.records if l == "WARNING"]
+    return {"reported": bool(_reported_pairs(soft)), "missing": _reported_pairs(soft), "raises": hard is not None and "don't seem to be declared" in hard, "missing_in_error": _reported_pairs([hard] if hard else []), "missing_on_read": _reported_pairs(onread)}
+
+
+def model_obs_header(case, resp):
+    m = sorted(resp["missing"])
+    return {"reported": resp["reported"], "missing": m, "raises": resp["reported"], "missing_in_error": m, "missing_on_read": m}
+
+
+def oracle_header(case, obs):
+    """required minus declared-for-that-line-type, straight from the property text"""
+    if "error" in obs:
+        return f"check_header failed: {obs}"
+    req = HDR_READERS[case["reader"]]["names"]
+    declared = {(l[0][1], l[1]) for l in case["lines"] if len(l) >= 4 and l[0] in ("#H", "#V", "#R")}
+    want = sorted([t, nm] for t in "HVR" for nm in req[t] if (t, nm) not in declared)
+    for k in ("missing", "missing_in_error", "missing_on_read"):
+        if obs[k] != want:
+            return f"{k}: reported {obs[k]}, but the header leaves {want} undeclared (reader requires {req})"
+    if obs["reported"] != bool(want) or obs["raises"] != bool(want):
+        return f"reported={obs['reported']} raises={obs['raises']} although {want} are undeclared"
+    return None
+
+
+def describe_header(case, obs):
+    req = HDR_READERS[case["reader"]]["names"]
+    declared = {(l[0][1], l[1]) for l in case["lines"] if len(l) >= 4 and l[0] in ("#H", "#V", "#R")}
+    miss = [(t, nm) for t in "HVR" for nm in req[t] if (t, nm) not in declared]
+    tags = [f"reader={case['reader']}", f"undeclared-required={min(len(miss), 3)}"]
+    if any((u, nm) in declared for t, nm in miss for u in "HVR" if u != t):
+        tags.append("missing-name-declared-for-another-line-type")
+    return tags
+
+
 # ------------------------------------------------------------------ version strings
 VERSIONS = ["0.2.0", "0.2.1", "0.1.0", "0.0.1", "0.3.0", "1.0.0", "1.2.0", "0.10.0", "2.1.5"]
 
@@ -274,7 +384,7 @@ def oracle_versions(case, obs):
 CHECK = Check(
     id="C06",
     title=".hap files round-trip and are parsed according to their header",
-    theorems=["C06.read_write", "C06.write_read_write", "C06.comments_ignored", "C06.comment_shapes", "C06.binding_by_order_line", "C06.unrequested_skipped", "C06.version_reported", "C06.version_accepted"],
+    theorems=["C06.read_write", "C06.write_read_write", "C06.comments_ignored", "C06.comment_shapes", "C06.binding_by_order_line", "C06.unrequested_skipped", "C06.undeclared_required_reported", "C06.version_reported", "C06.version_accepted"],
     sections=[
         Section(
             name="write_shuffle_read",
@@ -289,6 +399,20 @@ CHECK = Check(
             teardown=teardown,
             nontrivial=lambda c, o: C.jdump(c["data"]) if sum(len(h.get("vars", [])) for h in c["data"]) > 0 else None,
             rule="seeded random record sets (0-4 haplotypes with 0-3 variants, 0-2 repeats, IDs/contigs over the permitted alphabet incl. '.', '*', str/int/float extras on every line type through custom dataclasses) written with Haplotypes.write (plain / gzip); (a) read and re-written: bytes must be identical; (b) header and body lines shuffled independently (V before its H, declarations in any order, the order lines of any subset of the line types optionally removed (declarations then in column order), string extras that are empty or end / start with a blank), every comment shape ('#', '# ', '#text', '#<TAB>text', '#H', '#H<TAB>', '#V', '##x', …) inserted at random positions, then read with four reader classes (all extras, only H.beta, only V.score, none) and compared with the Lean parser on the same lines and with the generated content",
+        ),
+        Section(
+            name="undeclared_required",
+            theorems=["C06.undeclared_required_reported"],
+            gen=gen_header,
+            impl=impl_header,
+            model_req=lambda c: {"op": "hapHeader", **HDR_READERS[c["reader"]]["names"], "lines": c["lines"]},
+            model_obs=model_obs_header,
+            oracle=oracle_header,
+            describe=describe_header,
+            setup=setup,
+            teardown=teardown,
+            nontrivial=lambda c, o: C.jdump(c) if isinstance(o, dict) and o.get("missing") else None,
+            rule="seeded random headers for seven reader configurations (incl. Haplotype and Repeat classes that both require 'beta', as simphenotype's do): per line type and name of a pool every declaration present or absent (complete headers, exactly one required declaration dropped, random subsets, a required name declared only for the line types that do not require it), plus order lines, metadata, duplicated declarations and lines that merely look like declarations; check_header(softly=True) warnings, check_header(softly=False) ValueError and the warnings of read() are parsed for the '#t name' pairs and compared with the Lean bookkeeping and with required-minus-declared computed from the generated content",
         ),
         Section(
             name="version_strings",
